@@ -215,8 +215,6 @@ theorem rfGrouping_part (cfg : Cfg) (hc : cfg.gCount = 3) (D : String) (s : St) 
     have hfacts : l = (s.pol.get sec).filter (fun r => !Spec.matchesFilter idx vals r) ∧
         eff = (s.pol.get sec).filter (Spec.matchesFilter idx vals) := by
       unfold Policy.removeFilteredReturnsEffects at hrf
-      rw [hvals] at hrf
-      simp only [Bool.false_eq_true, ↓reduceIte] at hrf
       cases hpf : partitionFiltered idx vals (s.pol.get sec) with
       | error e => simp [hpf, Except.map] at hrf
       | ok pr =>
